@@ -158,7 +158,11 @@ def segment_garbling(text, rng):
     lines = text.split('\r')
     out = []
     names = ['XXX', 'P', 'PI', 'pid', '\nPI', ' PID', 'ZZZ', 'Z', '|||', 'MSH', 'msh', '123', 'PID|', '^~\\', 'EVN', 'OBX', 'NTE',
-             'IN1', 'ZZ', 'A', '']
+             'IN1', 'ZZ', 'A', '',
+             # names whose upper-cased form has another length (str.upper: sharp s -> SS, ligatures), non-ASCII names
+             'Z\xdf1', 'Z\xdf', '\xdf\xdf1', 'Z\ufb01', '\ufb01A', 'Z\u0149A', '\xe9\xe9\xe9', 'Z\xe9\xe9', 'z\u0131i',
+             # a further header line whose MSH-1 is not the separator, repeats or is blank
+             'MSH~', 'MSHx~', 'MSH~~', 'msh~', 'MSHx', 'MSH^', 'MSH ', 'MSH\\', 'MSH&~']
     for i in range(1, len(lines)):
         if not lines[i]:
             continue
@@ -355,7 +359,9 @@ def main(argv=None):
         hv = header_variants(text, v)
         feed('header-variant', name, hv if (lib or run.thorough) else hv[::3])
         sg = segment_garbling(text, rng)
-        feed('segment-name', name, sg if run.thorough else rng.sample(sg, min(len(sg), 30 if lib else 20)))
+        first = [x for x in sg if x[0].startswith('segment1-')]      # every name variant on the first line after the header
+        feed('segment-name', name, sg if run.thorough else
+             (first if lib else first[bi % 3::3]) + rng.sample(sg, min(len(sg), 30 if lib else 20)))
         feed('blank-lines', name, blank_lines(text), combos=None if run.thorough else [ALL_COMBOS[bi % 4], ALL_COMBOS[(bi + 2) % 4]])
         if time.time() - run.t0 > (95 if not run.thorough else 400):
             run.note('time budget: mutants of the base messages after number %d (of %d) were not generated' % (bi + 1, len(bases)))
